@@ -1,3 +1,170 @@
+import QtyModel.Lemmas.ListFind
 import QtyModel.Tables
+import QtyModel.Generated.Catalogue
+import QtyModel.Generated.Astro
+import QtyModel.Generated.Synth
+/-
+  C09 — Unit registry is complete, ordered and invertible.
+
+  Property theorems only.  The general statements hold for EVERY definition the
+  model of the macro accepts (any number of units); the statements about the
+  generated catalogue are kernel evaluations over the whole regenerated tables.
+-/
 namespace Qty.C09
+open Qty Qty.MacroFront
+
+/-! ### iteration order = stable sort of the declaration -/
+
+/-- the iterated units are the declared units (reference unit included), stably sorted -/
+theorem iter_is_sorted_declaration (it : RawItem) (d : QtyDef) (h : expand it = .ok d) :
+    ∃ dc, declared it = .ok dc ∧ d.units = isort (orderOf dc) dc.units ∧ d.refIdent = dc.refIdent := by
+  unfold expand analyze at h
+  cases hd : declared it with
+  | error e => simp [hd] at h
+  | ok dc =>
+    simp only [hd] at h
+    cases hp : parseArgs it.args with
+    | error e => simp [hp] at h
+    | ok dv =>
+      simp only [hp, Except.ok.injEq] at h
+      exact ⟨dc, rfl, by rw [← h], by rw [← h]⟩
+
+/-- each declared unit is yielded exactly once -/
+theorem iter_perm (it : RawItem) (d : QtyDef) (h : expand it = .ok d) :
+    ∃ dc, declared it = .ok dc ∧ d.units.Perm dc.units := by
+  obtain ⟨dc, h1, h2, _⟩ := iter_is_sorted_declaration it d h
+  exact ⟨dc, h1, by rw [h2]; exact isort_perm _ _⟩
+
+/-- non-decreasing in the sort key, for any total and transitive key order -/
+theorem iter_sorted (it : RawItem) (d : QtyDef) (h : expand it = .ok d)
+    (le : UnitDef → UnitDef → Bool)
+    (hle : ∀ dc, declared it = .ok dc → orderOf dc = le)
+    (htot : ∀ a b, le a b = true ∨ le b a = true)
+    (htr : ∀ a b c, le a b = true → le b c = true → le a c = true) :
+    d.units.Pairwise (fun x y => le x y = true) := by
+  obtain ⟨dc, h1, h2, _⟩ := iter_is_sorted_declaration it d h
+  rw [h2, hle dc h1]
+  exact isort_sorted le htot htr _
+
+/-- declaration order breaks ties: restricted to any class `p` of units that the order cannot
+separate from each other, the iteration order is the declaration order -/
+theorem isort_stable (le : UnitDef → UnitDef → Bool)
+    (htot : ∀ a b, le a b = true ∨ le b a = true)
+    (htr : ∀ a b c, le a b = true → le b c = true → le a c = true)
+    (p : UnitDef → Bool) (hp : ∀ a b, p a = true → p b = true → le a b = true) (l : List UnitDef) :
+    (isort le l).filter p = l.filter p := by
+  induction l with
+  | nil => rfl
+  | cons a l ih =>
+    unfold isort
+    rw [insertBy_filter le p a _ (isort_sorted le htot htr l) (fun b _ ha hb => hp a b ha hb)]
+    simp only [List.filter_cons]
+    split <;> simp [ih]
+
+/-- the reference unit comes first among the units whose key equals its own (scale one):
+it is declared first (`insert(0, ref_unit_def)`) and the sort is stable -/
+theorem ref_first_among_equal_keys (le : UnitDef → UnitDef → Bool)
+    (htot : ∀ a b, le a b = true ∨ le b a = true)
+    (htr : ∀ a b c, le a b = true → le b c = true → le a c = true)
+    (rd : UnitDef) (us : List UnitDef) :
+    ((isort le (rd :: us)).filter (fun u => le u rd && le rd u)).head? = some rd := by
+  rw [isort_stable le htot htr _ (fun a b ha hb => by
+    simp only [Bool.and_eq_true] at ha hb
+    exact htr _ _ _ ha.1 hb.2)]
+  have hrr : le rd rd = true := by
+    rcases htot rd rd with h | h <;> exact h
+  simp [List.filter_cons, hrr]
+
+/-! ### lookups -/
+
+variable {A : Type} (R : Arith A)
+
+/-- lookup by scale returns the FIRST unit (in iteration order) with that scale, nothing otherwise -/
+theorem from_scale_first (T : QT A Nat) (x : A) (u : Nat) (h : unitFromScale R T x = some u) :
+    ∃ pre post, T.units = pre ++ u :: post ∧ R.beq (T.scale u) x = true ∧
+      ∀ v ∈ pre, R.beq (T.scale v) x = false :=
+  find_first _ _ _ h
+
+theorem from_scale_none (T : QT A Nat) (x : A) :
+    unitFromScale R T x = none ↔ ∀ v ∈ T.units, R.beq (T.scale v) x = false :=
+  find_none_iff _ _
+
+/-- `Unit::from_symbol` / `Quantity::unit_from_symbol`: `iter().find(|u| u.symbol() == symbol)` -/
+def fromSymbol (units : List UnitDef) (s : Text) : Option UnitDef :=
+  units.find? (fun u => u.symbol == s)
+
+theorem from_symbol_first (units : List UnitDef) (s : Text) (u : UnitDef)
+    (h : fromSymbol units s = some u) :
+    ∃ pre post, units = pre ++ u :: post ∧ u.symbol = s ∧ ∀ v ∈ pre, v.symbol ≠ s := by
+  obtain ⟨pre, post, e, hu, hp⟩ := find_first _ _ _ h
+  exact ⟨pre, post, e, by simpa using hu, fun v hv => by simpa using hp v hv⟩
+
+theorem from_symbol_none (units : List UnitDef) (s : Text) :
+    fromSymbol units s = none ↔ ∀ v ∈ units, v.symbol ≠ s := by
+  unfold fromSymbol; rw [find_none_iff]; simp
+
+/-- where symbols are unique, looking a unit's symbol up returns the unit itself -/
+theorem from_symbol_unique (units : List UnitDef) (hn : (units.map (·.symbol)).Nodup)
+    (u : UnitDef) (hu : u ∈ units) : fromSymbol units u.symbol = some u :=
+  (find_key_iff units (·.symbol) hn u.symbol u).mpr ⟨hu, rfl⟩
+
+/-! ### the regenerated catalogue (main crate, astronomical crate, synthetic definitions) -/
+
+def allItems : List RawItem := Gen.Catalogue.items ++ Gen.Astro.items ++ Gen.Synth.items
+
+/-- checker for one definition: expands; symbols unique; variant identifiers unique; constant
+names unique; with a reference unit: exactly one unit is the reference unit, it has scale
+literal value one, and the iteration order is non-decreasing in the exact literal value -/
+def litLe (a b : UnitDef) : Bool :=
+  match a.scale, b.scale with
+  | some x, some y => decide (x.value ≤ y.value)
+  | _, _ => false
+
+def itemOk (it : RawItem) : Bool :=
+  match expand it with
+  | .error _ => false
+  | .ok d =>
+    decide ((d.units.map (·.symbol)).Nodup) && decide ((d.units.map (·.ident)).Nodup) &&
+    decide ((d.units.map (·.constName)).Nodup) &&
+    (match d.refIdent with
+     | none => decide (d.units.Pairwise (fun a b => textLe a.name b.name = true))
+     | some r =>
+       (d.units.filter (fun u => u.ident == r)).length == 1 &&
+       d.units.all (fun u => if u.ident == r then (u.scale.map (·.value)) == some 1 else true) &&
+       decide (d.units.Pairwise (fun a b => litLe a b = true)))
+
+theorem catalogue_registry_ok : allItems.all itemOk = true := by decide +kernel
+
+/-- no two declared scale literals of one catalogue quantity share an `f64` sort key unless they
+have the same exact value: the `f64` order used by the macro is faithful to the exact
+(decimal) order for every predefined quantity -/
+theorem catalogue_keys_faithful :
+    allItems.all (fun it => match expand it with
+      | .error _ => false
+      | .ok d => d.units.all (fun a => d.units.all (fun b => match a.scale, b.scale with
+          | some x, some y => (keyLe a b && keyLe b a) == (x.value == y.value)
+          | _, _ => true))) = true := by decide +kernel
+
+/-- KNOWN LIMIT (kernel-checked witness): the sort key is `f64` even when the amount type is
+decimal, so two decimal literals closer than `f64` resolution are ordered by declaration,
+not by value: `1.00000000000000002` declared before `1.00000000000000001` stays before it. -/
+theorem f64_key_not_faithful_for_close_decimals :
+    let x : UnitDef := { ident := [88], name := [88], symbol := [120], pfx := none, doc := none
+                         scale := some { digits := 100000000000000002, nfrac := 17, isFloat := true } }
+    let y : UnitDef := { ident := [89], name := [89], symbol := [121], pfx := none, doc := none
+                         scale := some { digits := 100000000000000001, nfrac := 17, isFloat := true } }
+    isort keyLe [x, y] = [x, y] := by decide +kernel
+
+/-- every unit is reachable through its upper-snake-case constant: the constant generated for a
+unit is `UpperSnake(UpperCamel(identifier))`, bound to that variant; non-vacuity on an
+identifier with digits, acronym and underscores -/
+example : Case.upperSnake (Case.upperCamel (Text.ofString "Meter_per_Second_squared"))
+    = Text.ofString "METER_PER_SECOND_SQUARED" := by decide +kernel
+
+example : (isort keyLe
+    [{ ident := [82], name := [82], symbol := [114], pfx := none, doc := none, scale := some litOne },
+     { ident := [65], name := [65], symbol := [97], pfx := none, doc := none, scale := some { digits := 5, nfrac := 1, isFloat := true } },
+     { ident := [66], name := [66], symbol := [98], pfx := none, doc := none, scale := some { digits := 1 } }]).map (·.ident)
+    = [[65], [82], [66]] := by decide +kernel
+
 end Qty.C09
